@@ -64,6 +64,8 @@ def render(items, doctype: str, indent: str = "  "):
             lines.append(f"{pad}<o>before<!--{COMMENT_OK}-->after</o>")
         elif k == "p":
             lines.append(f"{pad}<?pi some data?>")
+        elif k == "r":
+            lines.append(f'{pad}<o q="x&#13;&#10;&#9;y">a&#13;b&#13;&#10;c</o>')
         elif k == "added":
             lines.append(f'{pad}<added k="v">txt</added>')
 
